@@ -285,10 +285,14 @@ SEQUENCE_decode_ber(const asn_codec_ctx_t *opt_codec_ctx,
 				edx = n;
 				ctx->step = 1 + 2 * edx;	/* Remember! */
 				goto microphase2;
-			} else if(elements[n].flags & ATF_ANY_TYPE) {
+			} else if((elements[n].flags & ATF_ANY_TYPE)
+				|| ((elements[n].flags & ATF_OPEN_TYPE)
+				    && elements[n].tag == (ber_tlv_tag_t)-1)) {
 				/*
 				 * This is the ANY type, which may bear
-				 * any flag whatsoever.
+				 * any flag whatsoever; or an open type without
+				 * a tag of its own, which starts with the tag
+				 * of the type its selector will choose.
 				 */
 				edx = n;
 				ctx->step = 1 + 2 * edx;	/* Remember! */
